@@ -95,10 +95,14 @@ BODIES_A = [
     dict(name="area_decide", file=T + "AreaComparison.cxx", what="match",
          pattern=r"areaValue /= maxValueA;.*?if \(areaValue[^{;]*\{\s*s = false;\s*\}",
          rules=[{"name": "members", "re": r"this->prec\b", "sub": "prec", "min": 1, "max": 1}]),
+    dict(name="area_verdict", file=T + "AreaComparison.cxx", what="match", generic=False,
+         pattern=r"if \(!s\) \{\s*this->msgLog \+= \" failed.*?this->success = false;\s*\}",
+         rules=[{"name": "drop log text", "re": r"this->msgLog \+=.*?;", "sub": "", "min": 3},
+                {"name": "success flag", "re": r"this->success\b", "sub": "g_success", "min": 1, "max": 1}]),
 ]
 JOBS += [Job("area_row", "area.c.in", enforce="area_row", bodies=BODIES_A, min_obligations=2, backend=FP, needs=["area_row"],
              expect_labels=["identical-curves-keep-a-zero-area", "row-adds-the-trapezoid"]),
-         Job("area_decide", "area.c.in", enforce="area_decide", bodies=BODIES_A, min_obligations=2, backend=FP, needs=["area_decide"],
+         Job("area_decide", "area.c.in", enforce="area_decide", bodies=BODIES_A, min_obligations=2, backend=FP, needs=["area_decide", "area_verdict"],
              expect_labels=["fails-when-the-normalised-area-exceeds-the-tolerance", "zero-area-is-accepted"])]
 
 
@@ -106,7 +110,7 @@ def run(ctx):
     ctx.assume("tolerances are finite and non-negative (requires); columns have at most 2^20 rows (object-size bound of the verifier, not of the argument: the loop contract is independent of n)",
                "the documented tolerance is evaluated with the same double expression as the code, so obligations isolate the decision (comparison direction, NaN/inf handling), not rounding",
                "log/message statements are deleted by must-fire rules; Comparison::success starts true (Comparison constructors)",
-               "AreaComparison: only the trapezoid row and the normalise-and-decide kernel are under contract (area.c.in); its interpolation/insertion loops, the whole trapezoid loop, the maximum search and the propagation of !s to success are not verified",
+               "AreaComparison: only the trapezoid row and the normalise-and-decide kernel are under contract (area.c.in); its interpolation/insertion loops, the whole trapezoid loop and the maximum search are not verified",
                "universal statements over rows are proved through a ghost row index k (for `success`) and a ghost failing-row witness g_w set next to `s = false` (for `failure`)")
     run_jobs(ctx, JOBS, replay_fn=replay)
 
